@@ -353,7 +353,7 @@ func roundTrip(ctx context.Context, fd protoreflect.FileDescriptor, siblings map
 		class := "other line differs"
 		switch {
 		case strings.Contains(g1, "//") && strings.TrimRight(g1[:strings.Index(g1, "//")], " ") == g2:
-			class = "trailing comment printed after a closing brace is lost by the parser"
+			class = "trailing comment printed after a closing brace is not read back"
 		case strings.HasPrefix(strings.TrimSpace(g1), "//") != strings.HasPrefix(strings.TrimSpace(g2), "//"):
 			class = "a comment line appears or disappears"
 		case strings.TrimSpace(g1) == "" || strings.TrimSpace(g2) == "":
